@@ -21,8 +21,8 @@ RULE = (
 )
 ASSUMPTIONS = [
     'statement-granular schedules: races inside one SQLite call are not explored here',
-    'clients are threads with their own SQLite connections (the lock protocol is the same for processes); '
-    'timeout=0 turns lock contention into an immediate, schedulable retry',
+    'clients are threads (own SQLite connections or one shared Cache object) and, in scheduled_processes, forked OS processes '
+    '(own Cache object or the object inherited from the parent); timeout=0 turns lock contention into an immediate, schedulable retry',
     'calls use retry=True where the method offers it',
 ]
 
